@@ -773,3 +773,111 @@ def target_value_stream(item, ex, specs, plan, rng, pick_branch):
                 done = True
                 break
     return recs
+
+
+# ---------------------------------------------------------------------------------------------
+# round 4: vector arguments written in cylindrical / spherical coordinates, law judged geometrically
+# ---------------------------------------------------------------------------------------------
+
+def _to_cartesian(kind: str, c):
+    """Plain float arithmetic, independent of the repository's vector code (conventions of CoordinateSystem:
+    cylindrical (r, theta, z); spherical (r, theta = azimuth, phi = polar angle))."""
+    c = [float(x) for x in c] + [0.0] * (3 - len(c))
+    if kind == "CYLINDRICAL":
+        r, th, z = c
+        return [r * math.cos(th), r * math.sin(th), z]
+    if kind == "SPHERICAL":
+        r, th, ph = c
+        return [r * math.sin(ph) * math.cos(th), r * math.sin(ph) * math.sin(th), r * math.cos(ph)]
+    return c[:3]
+
+
+def _from_cartesian(kind: str, v):
+    x, y, z = [float(t) for t in v]
+    if kind == "CYLINDRICAL":
+        return [math.hypot(x, y), math.atan2(y, x), z]
+    r = math.sqrt(x * x + y * y + z * z)
+    return [r, math.atan2(y, x), math.acos(z / r)]
+
+
+def curvilinear_stream(item, ex, specs, plan, rng, pick_branch):
+    """Every vector argument is the same geometric vector written in CoordinateSystem(CYLINDRICAL) / (SPHERICAL) (angle slots
+    as angle quantities in radian or degree, one shared coordinate-system object); the result is converted to Cartesian
+    components HERE and compared with the law function / closed form evaluated at the Cartesian components."""
+    from symplyphysics import Quantity, units, convert_to_si  # pylint: disable=import-outside-toplevel
+    from symplyphysics.core.coordinate_systems.coordinate_systems import CoordinateSystem  # pylint: disable=import-outside-toplevel
+    from symplyphysics.core.vectors.vectors import QuantityVector  # pylint: disable=import-outside-toplevel
+    from symplyphysics.core.dimensions import dimension_to_si_unit  # pylint: disable=import-outside-toplevel
+    vec_args = [a for a in ex.args if isinstance(a.value, X.SVec)]
+    if not vec_args or any(not isinstance(a.value, (X.SVec, sympy.Symbol)) for a in ex.args):
+        return []
+    recs = []
+    syms = sorted({s for a in ex.args for s in a.syms}, key=str)
+    for kind in ("CYLINDRICAL", "SPHERICAL"):
+        env = {s: nice_value(s, plan, rng) for s in syms}
+        for a in vec_args:                      # generic direction: no zero component, azimuth not a multiple of pi
+            for s, v in zip(a.value.components, (rng.randint(1, 9), -rng.randint(1, 9), rng.randint(1, 9))):
+                env[s] = sympy.Rational(v * rng.randint(1, 9), rng.randint(1, 4))
+        cs = CoordinateSystem(getattr(CoordinateSystem.System, kind))
+        try:
+            kwargs, desc = build_call(ex, env, rng, plan)
+            shown = {}
+            for a in vec_args:
+                comps = _from_cartesian(kind, [env[s] for s in a.value.components])
+                dim = a.value.dimension
+                unit = dimension_to_si_unit(dim) if dim is not None else 1
+                qs = []
+                for i, c in enumerate(comps):
+                    if CoordinateSystem.is_angle_component(cs.coord_system_type, i):
+                        qs.append(Quantity(sympy.Float(math.degrees(c)) * units.degree) if rng.random() < 0.5
+                            else Quantity(sympy.Float(c) * units.radian))
+                    else:
+                        qs.append(Quantity(sympy.Float(c) * unit))
+                kwargs[a.param] = QuantityVector(qs, cs)
+                shown[a.param] = comps
+        except Exception as e:  # pylint: disable=broad-except
+            recs.append({"stream": "curvilinear", "system": kind, "status": "skipped", "why": f"call not constructible: {type(e).__name__}: {e}"[:160]})
+            continue
+        rec = {"stream": "curvilinear", "system": kind, "env": {str(k): str(v) for k, v in env.items()}, "components_passed": shown}
+        try:
+            res = item.fn(**kwargs)
+        except Exception as e:  # pylint: disable=broad-except
+            rec.update(status="skipped", real="raise", why=f"not accepted in {kind.lower()} coordinates: {type(e).__name__}: {str(e)[:100]}")
+            recs.append(rec)
+            continue
+        try:
+            if isinstance(res, QuantityVector):
+                rk = res.coordinate_system.coord_system_type.name
+                got_native = [float(convert_to_si(q)) for q in res.components]
+                got = _to_cartesian(rk, got_native)
+                rec.update(result_system=rk, result_components=got_native)
+            else:
+                got = real_value_of(res)
+            _k, want, bi = expected_outcome(ex, env, pick_branch)
+        except Exception as e:  # pylint: disable=broad-except
+            rec.update(status="skipped", why=f"result not comparable: {type(e).__name__}: {str(e)[:100]}")
+            recs.append(rec)
+            continue
+        rec.update(real="value", observed=got, closed_form_value=want, branch=bi)
+        if want is None or _has_nan(want) or _has_nan(got):
+            rec["status"] = "skipped"
+            rec["why"] = "undefined value"
+        elif _same(got, want, 1e-9):
+            rec["status"] = "ok"
+        else:
+            # the closed form at the Cartesian components IS the law function's value when the law-function lemma holds
+            lawfn = any(sp.kind == "law-function" and sp.branch == bi for sp in specs)
+            rec["status"] = "law-fail" if lawfn else "mismatch"
+            rec["why"] = (f"converted to Cartesian components the result is {got}, the law at the Cartesian components of the "
+                f"arguments gives {want}")
+        recs.append(rec)
+    return recs
+
+
+def real_value_of(res):
+    from symplyphysics import convert_to_si  # pylint: disable=import-outside-toplevel
+    if isinstance(res, SymQuantity):
+        return _num(convert_to_si(res))
+    if isinstance(res, (list, tuple)):
+        return [real_value_of(r) for r in res]
+    return _num(res)
